@@ -722,6 +722,9 @@ namespace sim
             }
           for (auto &m : v.GetObject())
             {
+              // of members with the same name only the first is ever read (rapidjson's FindMember)
+              if (&v.FindMember(m.name)->value != &m.value)
+                continue;
               // model lists at the feature level of a slab or fault are only defaults for segments that
               // declare none of that kind; unused defaults are never parsed, so nothing is demanded of them
               const std::string mk = m.name.GetString();
@@ -769,6 +772,94 @@ namespace sim
     }
   }
 
+  // Cold start: the scenario is the first thing a fresh process does. Several threads build their first worlds
+  // at the same time (valid and invalid documents mixed), query and destroy them. Anything a process sets up
+  // lazily on its first construction is set up here under the scheduler, with ThreadSanitizer watching.
+  bool gen_c12_cold(uint64_t seed, uint64_t run, const std::string &tier, Scenario &s)
+  {
+    (void) tier;
+    const uint64_t rs = hash_mix(seed, run);
+    Rng rng = stream(rs, "workload");
+    s.property = "C12";
+    s.seed = seed;
+    s.run = run;
+    s.generator = "c12/cold-threads";
+    s.cold = true;
+    const auto &cat = corpus();
+    const auto &ok = corpus_buildable(true, false);
+    const int T = static_cast<int>(rng.range(2, 5));
+    for (int t = 0; t < T; ++t)
+      {
+        WorldInfo w;
+        if (!ok.empty() && rng.chance(0.6))
+          w = cat[ok[rng.below(ok.size())]];
+        else
+          {
+            GenWorld g = rng.chance(0.5) ? gen_rich_world(rng, false) : gen_random_world(rng);
+            w = analyse_world("gen.wb", g.json);
+          }
+        const bool buildable = w.content.find("\"continuous\"") == std::string::npos;
+        std::string bytes = w.content;
+        std::string expect = buildable ? "accept" : "";
+        if (rng.chance(0.35))
+          {
+            Document d;
+            d.Parse<PARSE_FLAGS>(bytes.c_str(), bytes.size());
+            if (!d.HasParseError())
+              {
+                int applied = 0;
+                mutate(d, rng, applied);
+                bytes = serialise(d, false);
+                expect = must_reject(bytes).empty() ? "" : "reject";
+              }
+          }
+        const std::string path = "/simfs/t" + std::to_string(t) + ".wb";
+        s.files[path] = bytes;
+        std::vector<Op> ops;
+        const int rounds = static_cast<int>(rng.range(1, 2));
+        for (int k = 0; k < rounds; ++k)
+          {
+            Op c;
+            c.op = "create";
+            c.h = t;
+            c.file = path;
+            c.note = "own";
+            c.expect = expect;
+            ops.push_back(c);
+            const int nq = static_cast<int>(rng.range(0, 3));
+            Slot slot;
+            for (int i = 0; i < nq; ++i)
+              {
+                Op q;
+                fill_query(q, w, slot, rng, false, !w.random);
+                q.h = t;
+                q.noref = true;
+                ops.push_back(q);
+              }
+            Op d;
+            d.op = "destroy";
+            d.h = t;
+            d.note = "own";
+            ops.push_back(d);
+          }
+        s.threads.push_back(ops);
+      }
+    // ThreadSanitizer only reports a pair of accesses when the earlier one is among the other thread's last
+    // couple of million events, so a schedule that lets a thread run on for long after each switch point sees
+    // little: most cold starts use the uniformly random strategy or short round-robin slices
+    Rng srng = stream(rs, "schedule");
+    s.sched = random_sched(srng, T);
+    const double pick = srng.real();
+    if (pick < 0.6)
+      s.sched.strategy = S_RANDOM;
+    else if (pick < 0.8)
+      {
+        s.sched.strategy = S_RR;
+        s.sched.quantum = static_cast<int>(srng.range(2, 4));
+      }
+    return true;
+  }
+
   bool gen_c12(uint64_t seed, uint64_t run, const std::string &tier, Scenario &s)
   {
     (void) tier;
@@ -792,6 +883,106 @@ namespace sim
         base = analyse_world("gen.wb", g.json);
       }
     const std::string intact = "/simfs/intact.wb", doc = "/simfs/doc.wb", variant = "/simfs/variant.wb";
+    const bool base_buildable = base.content.find("\"continuous\"") == std::string::npos;
+    if (base_buildable && rng.chance(0.06))
+      {
+        // several threads build (and query, and destroy) worlds of their own at the same time: constructors
+        // share nothing by contract, so neither a ThreadSanitizer report nor a refused valid file is acceptable
+        s.generator = "c12/threads";
+        s.oracle.clear();
+        const int T = static_cast<int>(rng.range(2, 4));
+        for (int t = 0; t < T; ++t)
+          {
+            WorldInfo w = base;
+            if (t > 0 && !ok.empty() && rng.chance(0.7))
+              w = cat[ok[rng.below(ok.size())]];
+            const std::string path = "/simfs/t" + std::to_string(t) + ".wb";
+            s.files[path] = w.content;
+            std::vector<Op> ops;
+            const int rounds = static_cast<int>(rng.range(1, 2));
+            for (int k = 0; k < rounds; ++k)
+              {
+                Op c;
+                c.op = "create";
+                c.h = t;
+                c.file = path;
+                c.note = "own";
+                c.expect = "accept";
+                ops.push_back(c);
+                const int nq = static_cast<int>(rng.range(1, 4));
+                for (int i = 0; i < nq; ++i)
+                  {
+                    Op q;
+                    Slot dummy;
+                    fill_query(q, w, dummy, rng, false, !w.random);
+                    q.h = t;
+                    q.noref = true;
+                    ops.push_back(q);
+                  }
+                Op d;
+                d.op = "destroy";
+                d.h = t;
+                d.note = "own";
+                ops.push_back(d);
+              }
+            s.threads.push_back(ops);
+          }
+        Rng srng = stream(rs, "schedule");
+        s.sched = random_sched(srng, T);
+        return true;
+      }
+    if (base_buildable && rng.chance(0.05))
+      {
+        // the file is replaced by an invalid document of the same length (and, on the simulated disk, the same
+        // modification time) between two constructions from the same path
+        s.generator = "c12/rewrite";
+        s.oracle.clear();
+        std::string bad = base.content;
+        const size_t vpos = bad.find("\"1.1\"");
+        const size_t mpos = bad.find("\"model\"");
+        if (vpos != std::string::npos && (mpos == std::string::npos || rng.chance(0.5)))
+          bad.replace(vpos, 5, "\"1.7\"");
+        else if (mpos != std::string::npos)
+          bad.replace(mpos, 7, "\"modle\"");
+        else
+          bad[bad.size() / 2] = '}' ;
+        s.files[doc] = base.content;
+        s.files["/simfs/doc.v2"] = bad;
+        Op c1;
+        c1.op = "create";
+        c1.h = 0;
+        c1.file = doc;
+        c1.expect = "accept";
+        c1.note = "before-rewrite";
+        s.ops.push_back(c1);
+        Op q;
+        Slot dummy;
+        fill_query(q, base, dummy, rng, false, !base.random);
+        q.h = 0;
+        q.noref = true;
+        s.ops.push_back(q);
+        if (rng.chance(0.5))
+          {
+            Op d;
+            d.op = "destroy";
+            d.h = 0;
+            s.ops.push_back(d);
+          }
+        Op put;
+        put.op = "put";
+        put.file = doc;
+        put.name = "/simfs/doc.v2";
+        s.ops.push_back(put);
+        Op c2;
+        c2.op = "create";
+        c2.h = 1;
+        c2.file = doc;
+        c2.expect = must_reject(bad).empty() ? "" : "reject";
+        c2.note = "after-rewrite";
+        s.ops.push_back(c2);
+        s.ops.push_back(q);
+        return true;
+      }
     s.files[intact] = base.content;
     const double mode = rng.real();
     std::string bytes = base.content;
@@ -846,6 +1037,19 @@ namespace sim
                   f.kind = simfs::F_FLIP;
                   f.a = frng.range(0, std::max(1L, n));
                   f.b = 1L << frng.below(8);
+                  if (frng.chance(0.3))
+                    {
+                      // a stored byte in the tail of a key name becomes the lead byte of an incomplete multi-byte sequence
+                      std::vector<long> ends;
+                      for (long i = 4; i + 1 < n; ++i)
+                        if (bytes[static_cast<size_t>(i)] == '"' && (bytes[static_cast<size_t>(i + 1)] == ':' || (bytes[static_cast<size_t>(i + 1)] == ' ' && i + 2 < n && bytes[static_cast<size_t>(i + 2)] == ':')))
+                          ends.push_back(i);
+                      if (!ends.empty())
+                        {
+                          f.a = ends[frng.below(ends.size())] - frng.range(1, 3);
+                          f.b = 128;
+                        }
+                    }
                   break;
                 case 2:
                   f.kind = simfs::F_ZERO_BLOCK;
